@@ -963,6 +963,12 @@ func (c *FCtx) bitAnd(st *State, l, r *Term, k intKind) *Term {
 	st.assumeAbout(res, Implies(Eq(r, Num(-1)), Eq(res, l)))
 	st.assumeAbout(res, Implies(Ge(l, Num(0)), And(Le(Num(0), res), Le(res, l))))
 	st.assumeAbout(res, Implies(Ge(r, Num(0)), And(Le(Num(0), res), Le(res, r))))
+	// a symbolic mask that turns out to be 2^b - 1 (e.g. params.w - 1 with w in {4,16,256}): x & (2^b-1) = x mod 2^b
+	for _, b := range []uint{1, 2, 3, 4, 5, 6, 7, 8, 16, 32} {
+		if b < k.bits {
+			st.assumeAbout(res, Implies(Eq(r, Sub(Pow2(b), Num(1))), Eq(res, Mod(l, Pow2(b)))))
+		}
+	}
 	st.assumeAbout(res, rangeFact(res, k))
 	return res
 }
